@@ -7,7 +7,6 @@ import (
 	"io"
 	"math/rand/v2"
 	"net/http"
-	"net/http/httptest"
 	"sort"
 	"strings"
 	"sync"
@@ -42,6 +41,7 @@ type c06Attempt struct {
 	Read   int  `json:"read"`   // -1 all, 0 none, k bytes
 	Poison int  `json:"poison"` // bit set
 	Close  bool `json:"close"`
+	How    int  `json:"how"` // how "all" is read: 0 io.ReadAll, 1 io.Copy, 2 through a MaxBytesReader wrapper
 }
 
 type c06Seen struct {
@@ -126,7 +126,7 @@ func c06Replay(c *Ctx) {
 		nAttempts := 1 + r.IntN(4)
 		attempts := make([]c06Attempt, nAttempts)
 		for k := range attempts {
-			a := c06Attempt{Poison: r.IntN(64), Close: r.IntN(2) == 0}
+			a := c06Attempt{Poison: r.IntN(128), Close: r.IntN(2) == 0, How: r.IntN(3)}
 			switch r.IntN(3) {
 			case 0:
 				a.Read = 0
@@ -147,6 +147,17 @@ func c06Replay(c *Ctx) {
 			a := attempts[min(k, nAttempts-1)]
 			s := c06Seen{method: req.Method, url: req.URL.String(), proto: req.Proto, hdr: req.Header.Clone(), cl: req.ContentLength, te: append([]string(nil), req.TransferEncoding...)}
 			switch {
+			case a.Read == -1 && a.How == 1:
+				// io.Copy prefers the body's WriteTo when it has one
+				var bb bytes.Buffer
+				_, _ = io.Copy(&bb, req.Body)
+				s.got = bb.Bytes()
+				s.readAll = true
+			case a.Read == -1 && a.How == 2:
+				// read through a wrapper that replaces req.Body, as http.MaxBytesReader users do
+				req.Body = http.MaxBytesReader(w, req.Body, 1<<40)
+				s.got, _ = io.ReadAll(req.Body)
+				s.readAll = true
 			case a.Read == -1:
 				s.got, _ = io.ReadAll(req.Body)
 				s.readAll = true
@@ -178,6 +189,15 @@ func c06Replay(c *Ctx) {
 				req.ContentLength = 7
 				req.TransferEncoding = []string{"chunked"}
 			}
+			if a.Poison&64 != 0 { // edit header values in place (no Set/Add/Del: the value slices themselves)
+				if v := req.Header["X-Client-Multi"]; len(v) > 0 {
+					v[0] = "edited-in-place"
+					sort.Strings(v)
+				}
+				if v := req.Header["X-Client-A"]; len(v) > 0 {
+					v[0] = "REDACTED"
+				}
+			}
 			if a.Close {
 				_ = req.Body.Close()
 			}
@@ -199,7 +219,7 @@ func c06Replay(c *Ctx) {
 			c.Violation("constructor", err.Error(), nil)
 			return
 		}
-		srv := httptest.NewServer(buf)
+		srv := newTestServer(buf)
 		defer srv.Close()
 		method := pick(r, []string{"POST", "PUT", "POST", "PATCH"})
 		target := srv.URL + pick(r, []string{"/upload", "/a%2Fb/c", "/p?x=1&y=%20z", "/", "/semi;colon?q=a+b"})
